@@ -285,6 +285,43 @@ fn check_run_fresh(t: &mut Tape, ctx: &Ctx) -> Outcome {
     let cmd = if !nums.is_empty() && t.chance(1, 3) { format!("RUN {}", t.pick(&nums)) } else { "RUN".to_string() };
     // the RUN may stand behind another statement on the same direct line
     let cmd = format!("{}{}", t.pick(&["", "", "", "LIST:", "LIST 10-20:", "TROFF:", "Q9=0:", "PRINT \"GO\":"]), cmd);
+    // an edit and a RUN on one direct line: whether DELETE returns to the prompt or lets the line go
+    // on is not documented, but if the RUN happens it runs the program without the deleted line
+    if !nums.is_empty() && t.chance(1, 10) {
+        let n = *t.pick(&nums);
+        let cmd2 = format!("DELETE {}:RUN", n);
+        h.note(&format!("enter {:?}   <- prints nothing, or what RUN prints for the listing without line {}", cmd2, n));
+        crate::runner::note_case(&h.script);
+        let mut o = h.opts(4000);
+        let end_h = h.term.line(&cmd2, &mut o);
+        let ev_h = h.term.take();
+        if let Some(m) = has_panic(&ev_h) {
+            return Outcome::fail("panic", m, h.script);
+        }
+        let mut f = Term::new();
+        let mut of = h.opts(4000);
+        for l in lines.iter().filter(|l| !l.starts_with(&format!("{} ", n))) {
+            f.enter_raw(l);
+            f.run(&mut of);
+        }
+        f.take();
+        let end_f = f.line("RUN", &mut of);
+        let ev_f = f.take();
+        let case = format!("{}\nlisting before that line:\n{}", h.script, lines.join("\n"));
+        let nothing = ev_h.is_empty();
+        if !nothing && (ev_h != ev_f || end_h != end_f) {
+            return Outcome::fail(
+                "run-differs-from-fresh-interpreter",
+                format!("{} after the history:\n{}\n--- RUN in a fresh interpreter holding the listing without line {}:\n{}", cmd2, flat(&ev_h), n, flat(&ev_f)),
+                case,
+            );
+        }
+        let mut labels = h.labels.clone();
+        labels.push("DELETE n:RUN on one direct line");
+        labels.sort();
+        labels.dedup();
+        return Outcome::pass(true, hash_str(&case)).with_labels(labels);
+    }
     h.note(&format!("enter {:?}   <- compared with a fresh interpreter holding the listing", cmd));
     crate::runner::note_case(&h.script);
     // the history may have left TRON on only through its own statements: none do
